@@ -1,8 +1,10 @@
 (* Extract.v -- extraction of the executable model for the correspondence check.
    Only ExtrOcamlBasic is used: bool, option, list, prod, unit, sumbool map to OCaml's own
    types; nat, positive, N, Z stay the extracted Coq inductives.  No Extract Constant. *)
-From Az65 Require Import Base Expr CSpec ExprFacts.
+From Az65 Require Import Base Expr CSpec ExprFacts Token ExprParse Utf8 CharReader Interner.
 Require Import ExtrOcamlBasic.
 Extraction Language OCaml.
 Extraction "model.ml"
-  eval_top ceval compile label_res sizeof_res cres_of eres_of.
+  eval_top ceval compile label_res sizeof_res cres_of eres_of
+  pexpr ptree utf8_decode cr_chars
+  i_new intern read isort.
